@@ -290,6 +290,27 @@ func freshParts(fn *ssa.Function, v ssa.Value) (bool, string, []genUse) {
 				if !ok {
 					/* Slices of the array. */
 					if sl, ok := ref.(*ssa.Slice); ok {
+						/* How much of the array this slice spans
+						(make([]byte, 0, 16) is new [16]byte sliced [:0]). */
+						n := n
+						hi, lo := n, int64(0)
+						if nil != sl.High {
+							if k, isC := constInt(sl.High); isC {
+								hi = k
+							} else {
+								hi = -1
+							}
+						}
+						if nil != sl.Low {
+							if k, isC := constInt(sl.Low); isC {
+								lo = k
+							} else {
+								lo = -1
+							}
+						}
+						if hi >= 0 && lo >= 0 {
+							n = hi - lo
+						}
 						for _, r2 := range *sl.Referrers() {
 							if c2, ok := r2.(*ssa.Call); ok && (randFill[calleeName(c2.Common())] || ("io.ReadFull" == calleeName(c2.Common()) && isRandReader(c2.Common().Args[0])) || ("io.ReadAtLeast" == calleeName(c2.Common()) && isRandReader(c2.Common().Args[0]))) {
 								if n >= 0 && n < 8 {
@@ -498,5 +519,37 @@ func checkSameRequest(p *Prog, r *Report, ru *Rule, bidir []*ssa.Function, admit
 	}
 	if 0 == n {
 		ru.Unproven("routes", token.NoPos, "no route reaches the bidirectional admitter")
+	}
+}
+
+
+// pairingTokenUnder runs C06's pairing-token rule under another property's
+// rule (C01: two /io requests are two shells, never halves of one).
+func pairingTokenUnder(p *Prog, ru *Rule, a *connectAnchors) {
+	admitters := map[*ssa.Function]string{}
+	for _, ci := range a.Callers {
+		top := ci.Parent()
+		for nil != top.Parent() {
+			top = top.Parent()
+		}
+		admitters[top] = fnName(top)
+	}
+	for _, fn := range p.Funcs() {
+		if nil != fn.Parent() || "" != admitters[fn] {
+			continue
+		}
+		dirs := map[string][]ssa.CallInstruction{}
+		for _, f := range withAnons(fn) {
+			eachInstr(f, func(i ssa.Instruction) {
+				if c := callCommon(i); nil != c && nil != c.StaticCallee() {
+					if own, ok := admitters[c.StaticCallee()]; ok {
+						dirs[own] = append(dirs[own], i.(ssa.CallInstruction))
+					}
+				}
+			})
+		}
+		if 2 == len(dirs) {
+			checkPairingToken(p, ru, fn, dirs)
+		}
 	}
 }
